@@ -140,6 +140,11 @@ FEATURES += [
     ("feat-ranges-isolated", ["-O2"], """out str[8] t; out int m = 0; hook h;
 parser { t += /[a-h_z]+/; "!"; case { /[0-4,.;]/ -> { m = 1; } /[A-F\\-+*]/ -> { m = 2; } /[x-z$%&]/ -> { m = 3; } } h(); /[^k-p#@]/; "?"; }"""),
 ]
+# string constants whose C spelling is delicate: a control byte directly before a digit (octal escapes must not merge), a trailing backslash
+FEATURES += [
+    ("feat-string-consts", [], """out str[8] s = "\\t7"; out str[8] t; out unterminated str[4] u = "\\x011"; out int{unsigned, size 1} z = 165; hook h;
+parser { "a"; s = "\\n12"; h(); "b"; t = "C:\\\\"; h(); "c"; t = "\\x015\\x1f7"; u = "\\0007"; s = "x\\\\"; h(); "d"; t = "\\\\"; s += [t[0]]; h(); }"""),
+]
 # programs the compiler must reject in code generation (used by the checks that look at emitted text only)
 CODEGEN_REJECTED = [
     # an action-only conditional among the start actions that mentions $last: there is no byte yet
